@@ -370,6 +370,8 @@ func checkC15(c *Ctx, r *Report) {
 
 	orphanContextRule(c, r)
 
+	flattenedKeysRule(c, r)
+
 	r.Rule("R15d", "every implementation of value.SetContext stores its argument into storage reachable from the receiver on every path", 2)
 	setContextRule(c, r)
 
@@ -1182,6 +1184,164 @@ func orphanContextRule(c *Ctx, r *Report) {
 			r.Check(renumber, "R15h", name, "context given", pos, "the element keeps its parent and takes the rendering of an index (checked by R15b)",
 				"an existing node ("+existing+") is given another context without being stored at the place that context names: a node that was attached somewhere else in the meantime (SetChild of a handle, a moved value) is still in the tree, and its Path()/Parent() — and FlattenedKeys, diff and every error below it — now describe a place that does not hold it")
 		}
+	}
+}
+
+// flattenedKeysRule (R15i): the keys FlattenedKeys reports are paths from the root of the tree. Every key it emits
+// has a context path (context.path, Config.Path / PathOf) in its derivation — as the key itself, or as the prefix a
+// top-down construction starts from. Keys built from names and positions alone are relative to the node the call
+// was made on: right for a root, wrong for every child handle (and diff.CompareConfigs partitions these keys).
+func flattenedKeysRule(c *Ctx, r *Report) {
+	r.Rule("R15i", "every key FlattenedKeys emits derives from a context path (context.path / Config.Path / PathOf): keys are relative to the root, not to the node asked", 1)
+	fam := map[*ssa.Function]bool{}
+	var famList []*ssa.Function
+	for _, n := range []string{"FlattenedKeys", "flattenedKeys"} {
+		if f := c.Method("", "Config", n); f != nil {
+			for _, g := range WithAnon(f) {
+				fam[g] = true
+				famList = append(famList, g)
+			}
+		}
+	}
+	if f := c.TryFunc("", "appendFlattenedKeys"); f != nil {
+		for _, g := range WithAnon(f) {
+			fam[g] = true
+			famList = append(famList, g)
+		}
+	}
+	isPath := func(f *ssa.Function) bool {
+		if f == nil || f.Pkg != c.SSA[""] {
+			return false
+		}
+		switch f.Name() {
+		case "path", "pathOf", "Path", "PathOf":
+			return true
+		}
+		return false
+	}
+	seen := map[ssa.Value]bool{}
+	var derives func(v ssa.Value, d int) bool
+	derives = func(v ssa.Value, d int) bool {
+		if v == nil || d > 14 || seen[v] {
+			return false
+		}
+		seen[v] = true
+		defer delete(seen, v)
+		switch x := v.(type) {
+		case *ssa.Call:
+			if isPath(x.Call.StaticCallee()) {
+				return true
+			}
+			// formatting and joining keep the derivation of their operands
+			for _, a := range x.Call.Args {
+				if derives(a, d+1) {
+					return true
+				}
+			}
+		case *ssa.BinOp:
+			return derives(x.X, d+1) || derives(x.Y, d+1)
+		case *ssa.Phi:
+			for _, e := range x.Edges {
+				if derives(e, d+1) {
+					return true
+				}
+			}
+		case *ssa.Slice:
+			// a variadic argument list: what was stored into it
+			if al, ok := x.X.(*ssa.Alloc); ok {
+				for _, ref := range *al.Referrers() {
+					if ia, ok := ref.(*ssa.IndexAddr); ok {
+						for _, r2 := range *ia.Referrers() {
+							if st, ok := r2.(*ssa.Store); ok && derives(st.Val, d+1) {
+								return true
+							}
+						}
+					}
+				}
+			}
+			return derives(x.X, d+1)
+		case *ssa.MakeInterface:
+			return derives(x.X, d+1)
+		case *ssa.Extract:
+			return derives(x.Tuple, d+1)
+		case *ssa.UnOp:
+			if x.Op == token.MUL {
+				if vals, ok := localStores(x.X); ok {
+					for _, sv := range vals {
+						if derives(sv, d+1) {
+							return true
+						}
+					}
+				}
+			}
+		case *ssa.FreeVar:
+			if b := freeVarBinding(x); b != nil {
+				return derives(b, d+1)
+			}
+		case *ssa.Parameter:
+			// what the callers inside the family hand over
+			fn := x.Parent()
+			idx := -1
+			for i, p := range fn.Params {
+				if p == x {
+					idx = i
+				}
+			}
+			for _, g := range famList {
+				for _, ci := range CallsIn(g, false) {
+					if ci.Common().StaticCallee() == fn && idx >= 0 && idx < len(ci.Common().Args) {
+						if derives(ci.Common().Args[idx], d+1) {
+							return true
+						}
+					}
+				}
+			}
+		}
+		return false
+	}
+	n := 0
+	for _, fn := range famList {
+		name := c.FnName(fn)
+		for _, ci := range CallsIn(fn, false) {
+			call, ok := ci.(*ssa.Call)
+			if !ok || BuiltinName(call) != "append" || len(call.Call.Args) != 2 {
+				continue
+			}
+			sl, isSl := call.Type().Underlying().(*types.Slice)
+			if !isSl {
+				continue
+			}
+			if bt, isB := sl.Elem().Underlying().(*types.Basic); !isB || bt.Info()&types.IsString == 0 {
+				continue
+			}
+			// single elements are stored into a fresh array; a spread list (keys of a sub-tree) is checked where it was built
+			va, isVA := call.Call.Args[1].(*ssa.Slice)
+			if !isVA {
+				continue
+			}
+			al, isAl := va.X.(*ssa.Alloc)
+			if !isAl {
+				continue
+			}
+			for _, ref := range *al.Referrers() {
+				ia, ok := ref.(*ssa.IndexAddr)
+				if !ok {
+					continue
+				}
+				for _, r2 := range *ia.Referrers() {
+					st, ok := r2.(*ssa.Store)
+					if !ok {
+						continue
+					}
+					n++
+					r.Check(derives(st.Val, 0), "R15i", name, "key is a path from the root", c.Pos(call.Pos()), "the key has a context path in its derivation",
+						"a key is put together from names and positions only, with no context path (context.path, Config.Path) in its derivation: it is relative to the node FlattenedKeys was called on — for a child handle the keys lose the path of the child, and diff.CompareConfigs compares such keys")
+				}
+			}
+		}
+	}
+	if n == 0 {
+		r.add("R15i", "ucfg.FlattenedKeys", "key is a path from the root", "-", Undecided, true, "no key appended in the FlattenedKeys family")
 	}
 }
 
